@@ -1,10 +1,12 @@
 ------------------------------ MODULE MCZGraph ------------------------------
 EXTENDS ZGraph
 \* choices for KindSets (a cfg file cannot spell a sequence of sets)
-AllKinds == {"plain", "newargs", "gone", "gonenew"}
+AllKinds == {"plain", "newargs", "gone", "gonenew", "py2mod"}
 KindSeq == <<"plain", "newargs", "gone", "gonenew">>
 KS_Any == [i \in 1..NNode |-> AllKinds]
 KS_RootPlain == [i \in 1..NNode |-> IF i = 1 THEN {"plain"} ELSE AllKinds]
+KS_Py2 == [i \in 1..NNode |-> IF i = 1 THEN {"plain"} ELSE {"py2mod"}]
+KS_Plain == [i \in 1..NNode |-> {"plain"}]
 KS_Three == [i \in 1..NNode |-> {"plain", "newargs", "gone"}]
 \* fixed assignments: node n has kind KindSeq[((n + r) % 4) + 1]
 KS_Rot0 == [i \in 1..NNode |-> {KindSeq[((i - 1) % 4) + 1]}]
